@@ -127,7 +127,7 @@ func main() {
 	r := ev.Start("C05")
 	defer r.RecoverMain()
 	defer world.Cleanup()
-	r.SetBudget(ev.Pick(r, 480*time.Second, 60*time.Minute))
+	r.SetBudget(ev.Pick(r, 700*time.Second, 60*time.Minute))
 	r.Assume("monitor: after every bucket mutation the join (per key the highest timestamp) over the newest snapshot of every instance must not lose a key or move it to an older timestamp; sweeper disabled",
 		"part (b): the search starts from a scripted non-initial state: instance c wrote its key and uploaded once, then goes silent; instances a and b have written their keys",
 		"part (b): the cleaners' hidden first-seen bookkeeping is mirrored by the harness for state deduplication only")
@@ -156,14 +156,14 @@ func main() {
 			r.AddPart(&ev.Part{Name: name, Engine: "E3", Exhaustive: false, Bound: "not started: time budget used up"})
 			continue
 		}
-		restore := r.SubBudget(ev.Pick(r, 25*time.Second, 8*time.Minute))
+		restore := r.SubBudget(ev.Pick(r, 70*time.Second, 8*time.Minute))
 		xrun.Explore(r, name, xrun.Opts{Kind: "restart", Bound: ev.Pick(r, 2, 3), Budget: 30, Recycle: 4, Param: restartworld.Cfg{Native: native, Faults: r.Thorough()}})
 		restore()
-		restore = r.SubBudget(ev.Pick(r, 25*time.Second, 8*time.Minute))
+		restore = r.SubBudget(ev.Pick(r, 70*time.Second, 8*time.Minute))
 		xrun.Explore(r, name+"-just-restarted-empty", xrun.Opts{Kind: "restart", Bound: ev.Pick(r, 2, 3), Budget: 30, Recycle: 4, Param: restartworld.Cfg{Native: native, Faults: true, StartEmpty: true, ForceInterval: true, MaxLives: 2}})
 		restore()
 		if native {
-			restore = r.SubBudget(ev.Pick(r, 25*time.Second, 8*time.Minute))
+			restore = r.SubBudget(ev.Pick(r, 70*time.Second, 8*time.Minute))
 			xrun.Explore(r, name+"-sweeper-old-entries", xrun.Opts{Kind: "restart", Bound: ev.Pick(r, 1, 2), Budget: 30, Recycle: 4, Param: restartworld.Cfg{Native: true, Faults: true, StartEmpty: true, OldEntries: true, MaxLives: 2}})
 			restore()
 		}
@@ -174,7 +174,7 @@ func main() {
 			r.AddPart(&ev.Part{Name: name, Engine: "E3", Exhaustive: false, Bound: "not started: time budget used up"})
 			continue
 		}
-		restore := r.SubBudget(ev.Pick(r, 25*time.Second, 8*time.Minute))
+		restore := r.SubBudget(ev.Pick(r, 70*time.Second, 8*time.Minute))
 		xrun.Explore(r, name, xrun.Opts{Kind: "loop", Bound: ev.Pick(r, 2, 3), Budget: 30, Recycle: 4,
 			Param: loopworld.Cfg{Native: native, Cleaner: true, StoreFaults: 2, Remote2: true, AppPoints: []string{"sync.beforeInfo"}, AppOps: []string{"put-b"}, MaxVisits: 1}})
 		restore()
